@@ -12,10 +12,10 @@ from vf.symnp import S, SB, lift
 META = dict(
     functions=["dreye.api.convex.range_of_solutions", "_range_of_solutions", "_spaced_solutions", "get_P_from_A", "in_hull (gate)", "dreye.api.utils.transform_values",
                "ReceptorEstimator.range_of_solutions (wiring)"],
-    bounds=dict(quick="capture matrix A and vector K CONCRETE (exact rationals) from a catalogue: 2x3 (random well-conditioned x2, zero entry, proportional columns, "
-                      "receptor seeing one source, equal-entry column), 3x4 (random), 2x4 (two surplus sources, spaced solutions only); symbolic target (any in-gamut target, "
+    bounds=dict(quick="capture matrix A CONCRETE (exact rationals) from a catalogue: 2x3 (random well-conditioned x2, zero entry, proportional columns, "
+                      "receptor seeing one source, equal-entry column), 2x4 (two surplus sources, spaced solutions only); symbolic target (any in-gamut target, "
                       "given as A x0 for symbolic in-bound x0: interior, face, edge and vertex targets alike), symbolic 0 <= lb < ub, symbolic baseline; spaced solutions n in {2,3}",
-                thorough="adds 3x5, 4x5 and the full 2x4 extent proof, spaced n up to 5"),
+                thorough="adds 3x4, 3x5 and the full 2x4 extent proof, spaced n up to 5"),
     stubs=["membership gate (Delaunay): answers True for the in-gamut cases and False for the out-of-gamut cases (membership exactness is C03)",
            "cvxpy -> symcp for the best-fit fallback", "np.linalg.solve -> exact Cramer solve; LinAlgError iff the (concrete) determinant is 0"],
     assumptions=["real arithmetic (exact comparisons are exact); the rounding-sensitivity of these comparisons is the separate perturbed-comparison layer (known finding F10)",
@@ -71,7 +71,7 @@ def _A(M, cat):
     return np.array([[float(v) for v in r] for r in rows])
 
 
-def _setup(M, cat, with_base):
+def _setup(M, cat, with_base, face_samples=False):
     A = _A(M, cat)
     m, n = np.asarray(A).shape
     lb = M.real("lb", (n,), sample=lambda r, s: r.choice([0.0, 0.1, 0.25], size=s))
@@ -79,7 +79,9 @@ def _setup(M, cat, with_base):
     for j in range(n):
         M.assume(lb[j] >= 0); M.assume(ub[j] > lb[j])
     # x0: any in-bound intensities; the target is their capture (interior, face, edge and vertex targets are all covered)
-    t = M.real("t0", (n,), sample=lambda r, s: r.choice([0.0, 1.0, 0.5, 0.3, 0.8], size=s))
+    # concrete modes sample interior targets only: face / vertex targets hit the rounding defect F10 in float64 (they are covered symbolically,
+    # in exact arithmetic, and by the tie layer)
+    t = M.real("t0", (n,), sample=(lambda r, s: r.choice([0.0, 1.0, 0.5, 0.3, 0.8], size=s)) if face_samples else (lambda r, s: r.uniform(0.15, 0.85, size=s)))
     for j in range(n):
         M.assume(t[j] >= 0); M.assume(t[j] <= 1)
     base = M.real("base", (m,), sample=lambda r, s: r.uniform(0.0, 0.5, size=s)) if with_base else None
@@ -177,6 +179,7 @@ def outside_case(M, cat, error):
     for j in range(n):
         M.assume(lb[j] >= 0); M.assume(ub[j] > lb[j])
     b = M.real("b", (m,), sample=lambda r, s: r.uniform(30.0, 40.0, size=s) * np.array([1.0] + [0.01] * (s[0] - 1)))
+    base = M.real("base", (m,), sample=lambda r, s: r.uniform(0.5, 2.0, size=s))
     xc = M.real("xc", (n,), sample=lambda r, s: r.uniform(0.3, 0.9, size=s))
     _Gate.answer = False
     symcp.reset()
@@ -184,7 +187,7 @@ def outside_case(M, cat, error):
     try:
         with warnings.catch_warnings():
             warnings.simplefilter("ignore")
-            mins, maxs = range_of_solutions(b, A, lb, ub, error=error)
+            mins, maxs = range_of_solutions(b, A, lb, ub, baseline=base, error=error)
     except ValueError:
         return {"out-of-gamut target raises ValueError when error='raise'": error == "raise"}
     if error == "raise":
@@ -195,7 +198,8 @@ def outside_case(M, cat, error):
     Aeff = [[Arows[i, j] for j in range(n)] for i in range(m)]
     w = [1] * m
     lbl, ubl = list(lb), list(ub)
-    f_x = fs.sq_error(Aeff, [0] * m, w, list(b), list(mins)); f_c = fs.sq_error(Aeff, [0] * m, w, list(b), list(xc))
+    bb = list(base)
+    f_x = fs.sq_error(Aeff, bb, w, list(b), list(mins)); f_c = fs.sq_error(Aeff, bb, w, list(b), list(xc))
     if M.symbolic:
         goals["the returned vector is within the bounds"] = fs.in_bounds(M, list(mins), lbl, ubl)
         if len(symcp.SOLVES) == 1:
@@ -205,8 +209,8 @@ def outside_case(M, cat, error):
         else:
             goals["one best-fit solve"] = False
     else:
-        xo = fs.scipy_bvls(Aeff, [0] * m, w, list(b), lbl, ubl)
-        goals["the returned vector is the best bounded least-squares fit"] = bool(np.sqrt(float(f_x)) <= np.sqrt(float(fs.sq_error(Aeff, [0] * m, w, list(b), list(xo)))) + 2e-2)
+        xo = fs.scipy_bvls(Aeff, bb, w, list(b), lbl, ubl)
+        goals["the returned vector is the best bounded least-squares fit"] = bool(np.sqrt(float(f_x)) <= np.sqrt(float(fs.sq_error(Aeff, bb, w, list(b), list(xo)))) + 2e-2)
     return goals
 
 
@@ -214,7 +218,7 @@ def tie_case(M, cat):
     """perturbed-comparison layer: every `>=` / `<=` inside the enumeration is decided with a margin delta (a computed candidate may be off by a
     rounding error).  sat = there are in-gamut targets for which the acceptance of every extremal candidate hinges on an exact tie."""
     from dreye.api.convex import _range_of_solutions
-    A, m, n, lb, ub, t, base = _setup(M, cat, False)
+    A, m, n, lb, ub, t, base = _setup(M, cat, False, face_samples=True)
     x0 = [lb[j] + t[j] * (ub[j] - lb[j]) for j in range(n)]
     Arows = np.asarray(A)
     b = np.array([fs._sum([Arows[i, j] * x0[j] for j in range(n)]) for i in range(m)], dtype=object if M.symbolic else float)
@@ -249,8 +253,12 @@ def cases(tier, seed):
         add(f"spaced {cat} n=3", "spaced_case", cat=cat, nsp=3)
     add("extent 2x3-rand1 via range_of_solutions with baseline", "extent_case", cat="2x3-rand1", via="public", with_base=True)
     add("spaced 2x3-rand1 n=2", "spaced_case", cat="2x3-rand1", nsp=2)
-    add("extent 3x4-rand1", "extent_case", cat="3x4-rand1")
-    add("spaced 2x4-rand1 n=2 (two surplus sources)", "spaced_case", cat="2x4-rand1", nsp=2, opts=dict(max_paths=20000))
+    if big:
+        add("extent 3x4-rand1", "extent_case", cat="3x4-rand1", opts=dict(max_paths=20000))
+    # two surplus sources: the recursive construction multiplies the mask forks beyond reach of path exploration (a single path takes minutes).
+    # NOT decided symbolically; only exercised in exact rational arithmetic on sampled inputs (translator-validation machinery), stated as such.
+    add("spaced 2x4-rand1 n=2 (two surplus sources; exact arithmetic on sampled inputs only)", "spaced_case", cat="2x4-rand1", nsp=2,
+        opts=dict(skip_sym=True, n_validate=(6 if big else 3), max_paths=2000))
     for error in ("raise", "ignore", "warn"):
         add(f"outside 2x3-rand1 error={error}", "outside_case", cat="2x3-rand1", error=error)
     add("tie 2x3-rand1 (perturbed comparisons)", "tie_case", cat="2x3-rand1")
